@@ -85,6 +85,37 @@ def run(ctx):
         ok = f is not None and any(U(d) == "singledispatch" for d in f.node.decorator_list)
         ctx.check(ok, "C17.a", f"generic:{ex}", "singledispatch generic function", f"{ex} is no longer a singledispatch function", con.relpath)
 
+    # explicit axis names take precedence over names found on the data object
+    for ex, par in (("extract_axis_name", "axis_name"), ("extract_axis_names", "axis_names")):
+        impls = [con.functions[ex]] + [c[1] for (ty, e), c in cells.items() if e == ex and c[0] == "impl"]
+        for fi in impls:
+            if par not in fi.params():
+                continue
+            bad = []
+            n = 0
+            for path in function_paths(fi.node):
+                if end_kind(path) != "return":
+                    continue
+                given = None
+                for s_ in path:
+                    if s_[0] == "cond" and U(s_[1]) == par:
+                        given = s_[2]
+                    if s_[0] == "cond" and U(s_[1]) == f"{par} is not None":
+                        given = s_[2]
+                    if s_[0] == "cond" and U(s_[1]) == f"{par} is None":
+                        given = not s_[2]
+                rv = U(path[-1][2].value) if path[-1][2].value is not None else "None"
+                if given is True:
+                    n += 1
+                    if rv not in (par, f"tuple({par})", "result"):
+                        bad.append(f"explicit {par} given but `{rv}` is returned")
+                elif given is None and rv not in (par, f"tuple({par})"):
+                    # a path that never looks at the explicit argument must not return a name taken from the data
+                    if rv != "None":
+                        bad.append(f"`{rv}` is returned on a path that never tested the explicit `{par}`")
+            ctx.check(not bad and n > 0, "C17.a", f"{fi.module.short}.{ex}:{fi.node.lineno and ''}explicit-wins:{_type_of(fi.module, (fi.node.args.posonlyargs + fi.node.args.args)[0].annotation)}",
+                      f"an explicitly given `{par}` is what is returned", " ; ".join(sorted(set(bad))) or f"no path handles an explicit `{par}`", fi.where)
+
     # ---- C17.b masks ---------------------------------------------------------------------------------------------------
     ctx.rule("C17.b", "NaN masks are KEEP masks (1D: per element, tables: per row) of the array they filter; C-order flattening", 8)
     wiring.mask_definition(ctx, "C17.b", con.functions["extract_1d_array"], "generic.extract_1d_array:mask", rowwise=False)
